@@ -6,10 +6,22 @@ import "sync"
 // The interpreter redirects the real functions here; natively the real ones run.
 
 func ModelOnceDo(o *sync.Once, f func()) {
-	if GhostGet(o, "done") == 0 {
-		defer GhostSet(o, "done", 1)
-		f()
+	if GhostGet(o, "done") == 1 {
+		return
 	}
+	for GhostGet(o, "running") == 1 { // another goroutine is inside f: Do blocks until it has returned
+		Yield()
+	}
+	if GhostGet(o, "done") == 1 {
+		return
+	}
+	GhostSet(o, "running", 1) // no context switch between the tests above and this store (ghost accesses are not visible operations)
+	defer func() {
+		GhostSet(o, "done", 1)
+		GhostSet(o, "running", 0)
+		WakeAll()
+	}()
+	f()
 }
 
 func ModelPoolGet(p *sync.Pool) interface{} {
